@@ -425,7 +425,7 @@ func (x *Exec) havocDeclared(st *State, pre *State, callee *ssa.Function, ct *Co
 			case "written":
 				nv := x.freshVar("written", SStr)
 				x.strFacts(st, nv)
-				x.bufSet(st, ch.T, nv)
+				x.bufSetT(st, ch.T, ch.Ty, nv)
 			case "sent":
 				arr := st.heapArr(ghSent, heapSorts[ghSent])
 				nv := x.freshVar("sent", SInt)
@@ -741,8 +741,12 @@ func (x *Exec) checkFrame(st *State, r *ssa.Return) {
 			}
 			ch := env.eval(e.Args[0])
 			if env.err == nil {
+				at := ch.T
+				if e.Name == "written" {
+					at = x.bufKeyT(x.entry, at, ch.Ty)
+				}
 				for _, k := range keys {
-					allowedLoc[k] = append(allowedLoc[k], ch.T)
+					allowedLoc[k] = append(allowedLoc[k], at)
 				}
 				isLoc = true
 			}
